@@ -47,29 +47,36 @@ Proof.
 Qed.
 End Generic.
 
-(* the call returns whenever the loop body runs at least once and proximal_operator accepts (n_const, order) *)
+(* the call returns whenever the loop body runs at least once and proximal_operator accepts (n_const, order);
+   order = None counts as 0 (repaired code, /repo a5b9e5b) *)
 Theorem admm_returns {F} (Op : fops F) solve n_const order k UtM UtU x dual m r n tol :
   n <> 0%nat ->
-  (n_const = None \/ exists nc o, n_const = Some nc /\ order = Some o /\ (o < nc)%nat) ->
+  (n_const = None \/ exists nc, n_const = Some nc /\ (order_eff order < nc)%nat) ->
   exists t, admm Op solve n_const order k UtM UtU x dual m r n tol = Ok t.
 Proof.
-  intros Hn H. destruct n as [|n]; [congruence|]. destruct H as [-> | (nc & o & -> & -> & Ho)].
+  intros Hn H. destruct n as [|n]; [congruence|]. destruct H as [-> | (nc & -> & Ho)].
   - cbn. eexists; reflexivity.
-  - unfold admm, prox_call. apply Nat.ltb_lt in Ho. rewrite Ho.
+  - unfold admm, admm_with, prox_call. apply Nat.ltb_lt in Ho. rewrite Ho.
     destruct (admm_loop_ran Op solve (apply_constr Op k) UtM UtU m r tol n x None dual) as (xf & xsf & df & ->).
     eexists; reflexivity.
 Qed.
 
-(* ... and raises in every other case: no iteration (x_split unbound), or a number of constraints with the order left
-   at None (admm's own default) / out of range *)
+(* ... and raises in every other case: no iteration (x_split unbound), or an order out of range *)
 Theorem admm_raises {F} (Op : fops F) solve n_const order k UtM UtU x dual m r n tol :
-  n = 0%nat \/ (exists nc, n_const = Some nc /\ (order = None \/ exists o, order = Some o /\ (nc <= o)%nat)) ->
+  n = 0%nat \/ (exists nc, n_const = Some nc /\ (nc <= order_eff order)%nat) ->
   admm Op solve n_const order k UtM UtU x dual m r n tol = Err.
 Proof.
-  intros [-> | (nc & -> & H)]; [reflexivity|]. destruct n as [|n]; [reflexivity|].
-  unfold admm, prox_call. destruct H as [-> | (o & -> & Ho)]; [reflexivity|].
-  apply Nat.ltb_ge in Ho. now rewrite Ho.
+  intros [-> | (nc & -> & Ho)]; [reflexivity|]. destruct n as [|n]; [reflexivity|].
+  unfold admm, admm_with, prox_call. apply Nat.ltb_ge in Ho. now rewrite Ho.
 Qed.
+
+(* order = None IS order = 0 (the two lines added by /repo a5b9e5b); before, the same call raised *)
+Theorem admm_order_none_is_zero {F} (Op : fops F) solve n_const k UtM UtU x dual m r n tol :
+  admm Op solve n_const None k UtM UtU x dual m r n tol = admm Op solve n_const (Some 0%nat) k UtM UtU x dual m r n tol.
+Proof. reflexivity. Qed.
+Theorem admm_order_none_raised_before {F} (Op : fops F) solve nc k UtM UtU x dual m r n tol :
+  admm_before_a5b9e5b Op solve (Some nc) None k UtM UtU x dual m r n tol = Err.
+Proof. destruct n; reflexivity. Qed.
 
 (* the n_const=None branch is the function admm_none of Model/Nnls.v (so its theorems apply to the entry point) *)
 Theorem admm_nconst_none {F} (Op : fops F) solve order k UtM UtU x dual m r n tol :
@@ -343,7 +350,7 @@ Theorem admm_unconstrained_bound nc o tol n x d : (o < nc)%nat -> n <> 0%nat ->
     forall c, (c < m)%nat -> ((mu + rho)^2)^n * err2 x' c <= (rho^2)^n * err2 x c.
 Proof.
   intros Ho Hn Wx Wd Zd. destruct n as [|n]; [congruence|].
-  unfold admm, prox_call. apply Nat.ltb_lt in Ho. rewrite Ho.
+  unfold admm, admm_with, prox_call. cbn [order_eff]. apply Nat.ltb_lt in Ho. rewrite Ho.
   change (apply_constr Rops KNone) with idp.
   destruct (admm_loop_ran Rops solve idp UtM UtU m r tol n x None d) as (xf & xsf & df & E). rewrite E.
   rewrite admm_id_runs_all in E.
@@ -402,7 +409,7 @@ Theorem admm_unconstrained_bound_any_dual nc o tol n x d : (o < nc)%nat ->
     forall c, (c < m)%nat -> ((mu + rho)^2)^n * err2 x' c <= (rho^2)^n * err2 x1 c.
 Proof.
   intros Ho Wx Wd. cbv zeta.
-  unfold admm, prox_call. apply Nat.ltb_lt in Ho. rewrite Ho.
+  unfold admm, admm_with, prox_call. cbn [order_eff]. apply Nat.ltb_lt in Ho. rewrite Ho.
   change (apply_constr Rops KNone) with idp.
   destruct (admm_loop_ran Rops solve idp UtM UtU m r tol n x None d) as (xf & xsf & df & E). rewrite E.
   rewrite admm_id_runs_all in E. cbn [admm_iter] in E.
@@ -599,7 +606,7 @@ Qed.
 Theorem admm_nonneg_returns_nonneg (solve : mat -> mat -> mat) nc order UtM UtU x dual m r n tol x' xs' d' :
   admm Rops solve (Some nc) order (KNonneg) UtM UtU x dual m r n tol = Ok (x', xs', d') -> nonnegm x'.
 Proof.
-  destruct n as [|n]; [discriminate|]. unfold admm. destruct (prox_call Rops (Some nc) order KNonneg x); [|discriminate].
+  destruct n as [|n]; [discriminate|]. unfold admm, admm_with. destruct (prox_call Rops (Some nc) order KNonneg x); [|discriminate].
   pose proof (admm_loop_ran Rops solve (apply_constr Rops KNonneg) UtM UtU m r tol n x None dual) as (xf & xsf & df & E).
   rewrite E. intros H. injection H as <- <- <-.
   (* the first body already yields a non-negative x; the rest of the loop preserves it *)
